@@ -110,8 +110,16 @@ func VH_C12_Chain() {
 			vAssert("dy-pillar", LunarUtil.GetJiaZiIndex(dy.GetGanZhi()) == specMod(want, 60))
 		})
 	}
+	// C08: every accessor of the fortune objects is total on these states
+	vhAcc_Yun(yun)
+	vhAcc_DaYun(dy)
 	lns := dy.GetLiuNian()
 	xys := dy.GetXiaoYun()
+	if len(lns) > 0 {
+		vhAcc_LiuNian(lns[0])
+		vhAcc_XiaoYun(xys[0])
+		vhAcc_LiuYue(lns[0].GetLiuYue()[0])
+	}
 	tp := specGZ(tg, tz)
 	for j := range lns {
 		j := j
